@@ -20,11 +20,16 @@ RULE = ('tx cases = (chunk size, message[, number of positive intermediate repli
         '2046, CR / CRLF planted at the buffer boundaries, 0-6 random chunk cuts or a cut next to a CR, LAST on the final / on an extra empty '
         'command / in the middle / absent, 0-2000 octets pre-buffered, read() results of 1..255 octets, and in a quarter of the cases one '
         'fault: queue_init fails, n-th queue write fails, n-th read fails, size limit, peer hangs up, extra pipelined octets. '
-        'non-trivial: tx = at least two BDAT commands were sent; rx = at least two commands succeeded and the envelope was sent; '
+        'session cases (bd) = scripts of 1-3 transactions for the same harness: MAIL/RCPT stand-in (optionally with a failing queue_init), '
+        'raw BDAT command lines through the dispatcher row and the real argument parser (every entry of a list of 27 malformed arguments, '
+        'leading zeros, mixed case, 2^32, 2^63, 2^64-1, 2^64, 506-octet lines), RSET in the middle of / between transactions, BDAT outside a '
+        'transaction, one fault per session in a fifth of them (n-th queue write fails with EPIPE/ENOSPC/EFBIG/EMSGSIZE/E2BIG/ENOMEM/EIO, n-th '
+        'read fails, size limit), short or over-long streams, pre-buffered octets, small read() results. '
+        'non-trivial: tx = at least two BDAT commands were sent; sessions = at least two transactions started and one envelope sent; rx = at least two commands succeeded and the envelope was sent; '
         'distinct by case text')
 TRUSTED_BASE = [
     'Coq 8.16.1 kernel (coqc; coqchk in thorough); vm_compute in the non-vacuity / refutation examples and two digit-count facts (ndigits 99, 159); no native_compute',
-    'axioms: none (Print Assumptions: Closed under the global context for all eight theorems)',
+    'axioms: none (Print Assumptions: Closed under the global context for all twelve theorems)',
     'translator tools/translators/bdat.py: regexes over qremote/qrbdat.c, lib/fmt.c, qsmtpd/data.c, lib/netio.c produce the constants in '
     'coq/Gen/GenBdat.v and GenBdatRx.v (reserve 12, margins, "BDAT ", " LAST\\r\\n", the LF-skip bound, buffer sizes) and check the statement '
     'shapes the models transcribe (a restructured function is reported as a broken tie)',
@@ -35,16 +40,21 @@ TRUSTED_BASE = [
     'INCOMING_CHUNK_SIZE=1), lib/netio.c; stubbed: netnwrite/checkreply/log_write/net_conn_shutdown (tx), queue_init/queue_envelope/'
     'queue_result/queue_reset/freedata/tarpit and the dispatcher rule for comstate (rx); read()/write()/writev()/poll() redirected; '
     'malloc filled with 0xEE; msgdata placed against a PROT_NONE page; gcc 12 -O1 ASan+UBSan vs. production build',
-    'the boolean checker spec_ok_C19_rx (used only to look for a failing input on C outputs) is a direct transcription of rx_delivered / '
-    'no_env_after_fail but not proved equivalent to them; spec_ok_C19_tx is proved to decide tx_ok (C19_tx_checker)',
+    'all three boolean checkers are proved to decide their Prop statements (C19_tx_checker, C19_rx_checker, C19_rxs_checker); the cut of a '
+    'session into transactions (align / segments in Spec/BdatRxSpec.v) is shared by statement and checker and is read, not proved',
+    'harness stand-ins re-implemented from the C and pinned by the translator (shape + constants): the BDAT row of smtploop() (mask 0x0840, '
+    'state -1, flags 5, 510-octet limit), smtp_rset(), and MAIL FROM + RCPT TO reduced to comstate = 0x0040 with one recipient',
 ]
 ASSUMPTIONS = [
     'tx: chunk size >= 16 (the minimum that fits "BDAT n LAST CRLF" plus one payload octet; smaller values of control/chunksizeremote make '
     'send_bdat loop forever or overflow its buffer - outside the property, noted in reports/C19.md)',
     'tx: malloc(chunksize) succeeds (otherwise send_bdat falls back to send_data, C06/C07); netnwrite() transmits its buffer unchanged; '
     'checkreply() returns the reply code of the server',
-    'rx: the "BDAT n [LAST]" argument has been parsed (n, LAST) - strtoull/strcasecmp are not modelled; BDAT commands of one transaction '
-    'follow each other (comstate 0x0800); between commands the line reader leaves any amount (0..1001) of the following octets buffered',
+    'rx: command lines contain no NUL (smtploop() refuses such lines in line_valid() before the dispatcher; modelled in Model/Session.v); '
+    'strtoull/strcasecmp are modelled (digits with overflow flag, C-locale case folding), not verified; between commands the line reader '
+    'leaves any amount (0..1001) of the following octets buffered',
+    'rx: C19_rx_transactions assumes the client lets MAIL be accepted (RSET after a failed transaction: comstate 0x0010) and that no injected '
+    'fault is still ahead; what happened before is arbitrary',
     'rx: C19_rx_content assumes no fault: queue_init and write_received succeed, every write() on the queue descriptor is complete, no read '
     'error, the peer sends all announced octets, the total is within maxbytes, net_writen succeeds; C19_rx_fail assumes nothing about faults',
     'rx: read buffer sizeof(inbuf) >= 2 (INCOMING_CHUNK_SIZE >= 1 gives >= 1024); queue_envelope/queue_result are stand-ins that succeed',
